@@ -194,8 +194,8 @@ def run_fs(desc):
             {'globstar': True, 'scandotdir': True}, {'scandotdir': True}, {'dot': True, 'scandotdir': True}, {'dot': True, 'globstar': True},
             {'globstar': True, 'follow': True}, {'globstarlong': True}, {'globstarlong': True, 'follow': True, 'matchbase': True},
             {'globstar': True, 'follow': True, 'matchbase': True}]
-    with util.temp_root() as root:
-        util.build_tree(root, HIDDEN_TREE)
+    from .. import fscommon as FC
+    with FC.built_tree(HIDDEN_TREE) as (root, _removed):      # deep sandbox: `../..` in a pattern stays inside the temporary directory
 
         @seed(desc['seed'])
         @util.hyp_settings(max(10, desc['n']), shrink=False)
@@ -214,10 +214,14 @@ def run_fs(desc):
                     elif api == 1:
                         res = list(G.iglob(text, flags=fl, root_dir=root))
                     else:
-                        res = [os.path.relpath(str(p), root) if str(p) != root else '.' for p in
-                               WP.Path(root).glob(text, flags=fl & ~G.MATCHBASE)]
                         if cfg.get('matchbase'):
                             return
+                        if any((not isinstance(s_, str)) and A.is_literal(s_) and A.literal_text(s_) in ('.', '..') for s_ in segs):
+                            # pathlib folds `x/.` into `x` (and relpath would fold `..`): the path object no longer shows which
+                            # segment the pattern matched, so such patterns are judged through glob()/iglob() only
+                            return
+                        res = [os.path.relpath(str(p), root) if str(p) != root else '.' for p in
+                               WP.Path(root).glob(text, flags=fl & ~G.MATCHBASE)]
             except util.HarnessBudget:
                 out.stats['watchdog_skipped'] += 1
                 return
@@ -277,8 +281,8 @@ def replay(case):
                match(n, [pi, '-' + pe], base | mod.NEGATE | mod.MINUSNEGATE), match(n, pi, base | mod.NEGATE, exclude=[pe])][how]
         return bool(got) == bool(want), {'want': bool(want), 'impl': bool(got)}
     if m == 'fs':
-        with util.temp_root() as root:
-            util.build_tree(root, HIDDEN_TREE)
+        from .. import fscommon as FC
+        with FC.built_tree(HIDDEN_TREE) as (root, _removed):
             cfg = case['cfg']
             pp = A.from_json(case['ast'])
             text = A.render_path(pp)
